@@ -134,10 +134,73 @@ def analyse_loops(repo: Repo, run: Run, interp, mod, fn, cls, reader: T, eof_rai
     return n
 
 
+def strict_decoder(repo: Repo, run: Run, interp, ks: int) -> None:
+    """R2 (premise of the record loops): the loops hand whatever read(64) returned to from_kd_buf and rely on it to reject a
+    record that is cut short.  from_kd_buf does so when it unpacks the WHOLE buffer with a format of exactly that size
+    (struct.unpack is strict about the length) or raises under `len(buffer) != size`.  A decoder built from operations that
+    never fail on a short buffer (slices, int.from_bytes) turns a partial record into an event."""
+    import struct as _struct
+    kmod = repo.module("kevent")
+    fn = repo.function("kevent", "from_kd_buf")
+    inp = param(fn.args.args[0].arg)
+    rec = interp.run(kmod, fn, {fn.args.args[0].arg: inp})
+    strict = None
+    for c in rec.calls:
+        nm = c.func.a[0] if c.func.op == "global" else ""
+        if nm in ("struct.unpack",) and len(c.args) == 2 and c.args[1] == inp and c.args[0].op == "const" and not c.pc:
+            try:
+                if _struct.calcsize(c.args[0].a[0]) == ks:
+                    strict = f"struct.unpack({c.args[0].a[0]!r}, <the whole buffer>)"
+            except (_struct.error, TypeError):
+                pass
+        if nm == "struct.unpack_from" and 2 <= len(c.args) <= 3 and c.args[1] == inp and c.args[0].op == "const" and not c.pc \
+                and (len(c.args) == 2 or c.args[2].op == "const"):
+            try:        # a read that reaches the last byte of the record fails on every shorter buffer (reads never give more)
+                if (c.args[2].a[0] if len(c.args) == 3 else 0) + _struct.calcsize(c.args[0].a[0]) == ks:
+                    strict = f"struct.unpack_from reaching byte {ks} of the buffer"
+            except (_struct.error, TypeError):
+                pass
+    ln = T("call", (T("builtin", ("len",)), (inp,), ()))
+    for r in rec.returns:
+        if r.kind == "raise":
+            for cnd, pol in r.pc:
+                atom, apol = render.norm_bool(cnd)
+                eff = pol if apol else not pol
+                if atom.op == "cmp" and atom.a[0] == "==" and {atom.a[1], atom.a[2]} == {ln, const(ks)} and not eff and len(r.pc) == 1:
+                    strict = f"raise when len(buffer) != {ks}"
+    if strict is None:
+        # (struct.unpack of a PART of the buffer rejects some short records, not all: it does not establish the premise)
+        harmless = ("int.from_bytes", "bytes", "tuple", "list", "dict", "int", "len", "zip", "range", "enumerate", "struct.unpack",
+                    "struct.unpack_from", "struct.calcsize")
+        unknown_ops = []
+        for c in rec.calls:
+            nm = c.func.a[0] if c.func.op in ("global", "builtin") else sym.pretty(c.func)
+            if c.func.op == "attr" and c.func.a[1] in ("from_bytes", "values", "items", "keys", "get"):
+                continue
+            inlined = c.func.op == "func" and c.result is not None and not (c.result.op == "call" and c.result.a[0] == c.func)
+            is_nt = c.func.op == "global" and c.func.a[0].startswith("pykdebugparser.") and interp.namedtuple_fields(c.func.a[0]) is not None
+            if nm in harmless or inlined or is_nt:
+                continue
+            unknown_ops.append(nm)
+        if unknown_ops or any(r.kind == "raise" for r in rec.returns):
+            run.floor_failures.append(f"C06/R2: whether from_kd_buf rejects a record that is cut short is not established (it uses "
+                                      f"{sorted(set(unknown_ops))[:3]}): the record loops rely on that")
+            return
+    run.ob("R2", kmod.name, "from_kd_buf", "rejects a buffer that is not a whole record", strict is not None,
+           "" if strict is not None else
+           "from_kd_buf is built from operations that never fail on a short buffer (slices, int.from_bytes): the record loops hand it "
+           "whatever read() returned, so a record cut short by the end of the dump is decoded into an event with the missing bytes "
+           "read as zero - the truncated dump reports an event the complete dump does not",
+           facts={"established_by": strict}, line=fn.lineno,
+           witness="a version-2 dump cut in the middle of its last record")
+
+
 def check(repo: Repo, run: Run) -> None:
     interp = sym.Interp(repo)
     mod = repo.module("kd_buf_parser")
     ks = consteval.evaluate(repo, mod, mod.constants.get("KEVENT_SIZE"))
+    if not isinstance(ks, int):
+        raise AnalysisError("kd_buf_parser.KEVENT_SIZE is missing or not a constant this analysis can evaluate")
     n_loops = 0
     eof_raising: dict = {}
     # module-level helpers first (seek_until), then the parser's methods
@@ -155,6 +218,7 @@ def check(repo: Repo, run: Run) -> None:
         if len(fn.args.args) >= 2 and name.startswith("parse"):
             n_loops += analyse_loops(repo, run, interp, mod, fn, kb, param(fn.args.args[1].arg), eof_raising)
     run.floor("R1", "stream-reading loops", n_loops, 4)
+    strict_decoder(repo, run, interp, ks)
 
     # ------------------------------------------------------------------ R2
     n_calls = 0
